@@ -100,3 +100,188 @@ func TestKeysOrder(t *testing.T) {
 		_ = os.WriteFile(out, b, 0o644)
 	}
 }
+
+// ---- structural properties of the key encoding (C02, C15, C20) ----
+//
+// For generated tuples of (addresses of several lengths incl. heads/tails of one another,
+// denominations incl. heads/tails of one another, times): composite keys parse back to their
+// fields; a scan prefix (or the unbonding suffix filter) selects exactly the keys of its own
+// tuple — a prefix/suffix built for (a, b, c) matches the key of (a', b', c', …) iff the tuples
+// are equal; different tuples give different keys.
+
+func genAddr(t *rapid.T, name string, base []byte) []byte {
+	switch rapid.IntRange(0, 6).Draw(t, name+"-mode") {
+	case 0:
+		if base != nil {
+			return append([]byte{}, base...)
+		}
+	case 1:
+		if len(base) > 1 {
+			return append([]byte{}, base[1:]...) // proper tail
+		}
+	case 2:
+		if len(base) > 1 {
+			return append([]byte{}, base[:len(base)-1]...) // proper head
+		}
+	case 3:
+		if base != nil {
+			b := append([]byte{}, base...)
+			b[rapid.IntRange(0, len(b)-1).Draw(t, name+"-flip")] ^= 1
+			return b
+		}
+	case 4:
+		if base != nil && len(base) < 60 {
+			return append(append([]byte{}, base...), rapid.Byte().Draw(t, name+"-ext"))
+		}
+	}
+	n := []int{1, 2, 20, 20, 32}[rapid.IntRange(0, 4).Draw(t, name+"-len")]
+	return rapid.SliceOfN(rapid.Byte(), n, n).Draw(t, name+"-bytes")
+}
+
+func genDenom(t *rapid.T, name string, base string) string {
+	switch rapid.IntRange(0, 6).Draw(t, name+"-mode") {
+	case 0:
+		if base != "" {
+			return base
+		}
+	case 1:
+		if len(base) > 3 && sdk.ValidateDenom(base[1:]) == nil {
+			return base[1:] // proper tail
+		}
+	case 2:
+		if len(base) > 3 {
+			return base[:len(base)-1] // proper head
+		}
+	case 3:
+		if base != "" && len(base) < 100 {
+			return base + rapid.SampledFrom([]string{"a", "0", "x", "/"}).Draw(t, name+"-ext")
+		}
+	case 4:
+		if base != "" && len(base) < 100 {
+			return rapid.SampledFrom([]string{"a", "u", "w"}).Draw(t, name+"-pre") + base
+		}
+	}
+	return rapid.SampledFrom(append([]string{"uluna", "luna", "stake", "ibc/27394FB092D2ECCD56123C74F36E4C1F926001CEADA9CA97EA622B25F41E5EB2"}, AssetDenoms...)).Draw(t, name+"-menu")
+}
+
+func TestKeysStructure(t *testing.T) {
+	if os.Getenv("VERIF_KEYS") == "" {
+		t.Skip("VERIF_KEYS not set")
+	}
+	n, related := 0, 0
+	var fail string
+	failf := func(rt *rapid.T, what, format string, args ...interface{}) {
+		fail = what
+		rt.Fatalf(what+": "+format, args...)
+	}
+	t.Run("rapid", func(t *testing.T) {
+		rapid.Check(t, func(rt *rapid.T) {
+			n++
+			del1 := genAddr(rt, "del1", nil)
+			del2 := genAddr(rt, "del2", del1)
+			val1 := genAddr(rt, "val1", nil)
+			val2 := genAddr(rt, "val2", val1)
+			dst1 := genAddr(rt, "dst1", val1)
+			dst2 := genAddr(rt, "dst2", dst1)
+			dn1 := genDenom(rt, "dn1", "")
+			dn2 := genDenom(rt, "dn2", dn1)
+			t1 := genTime(rt, "t1")
+			t2 := t1
+			if rapid.IntRange(0, 2).Draw(rt, "t2-mode") == 0 {
+				t2 = genTime(rt, "t2")
+			}
+			same := func(a, b []byte) bool { return bytes.Equal(a, b) }
+			if !same(del1, del2) || !same(val1, val2) || dn1 != dn2 {
+				related++
+			}
+			// 1. unbonding index key: field round trips
+			ik1 := alliancetypes.GetUnbondingIndexKey(val1, t1, dn1, del1)
+			ik2 := alliancetypes.GetUnbondingIndexKey(val2, t2, dn2, del2)
+			if got := alliancetypes.ParseUnbondingIndexKeyForDenom(ik1); got != dn1 {
+				failf(rt, "unbonding index key: denom round trip", "%q parsed back as %q", dn1, got)
+			}
+			if got := alliancetypes.ParseUnbondingIndexKeyForValidator(ik1); !same(got, val1) {
+				failf(rt, "unbonding index key: validator round trip", "%x parsed back as %x", val1, got)
+			}
+			if got, err := alliancetypes.GetTimeFromUndelegationKey(ik1); err != nil || !got.Equal(t1) {
+				failf(rt, "unbonding index key: time round trip", "%s parsed back as %s (%v)", t1, got, err)
+			}
+			qk, ct, err := alliancetypes.ParseUnbondingIndexKeyToUndelegationKey(ik1)
+			if err != nil || !ct.Equal(t1) || !same(qk, alliancetypes.GetUndelegationQueueKey(t1, del1)) {
+				failf(rt, "unbonding index key -> bucket key", "index key of (%x,%s) maps to %x", del1, t1, qk)
+			}
+			// 2. the (denom, delegator) suffix filter of the unbonding queries is exact
+			match := bytes.HasSuffix(ik1, alliancetypes.GetPartialUnbondingKeySuffix(dn2, del2))
+			if match != (dn1 == dn2 && same(del1, del2)) {
+				failf(rt, "unbonding suffix filter", "suffix of (%q,%x) matches=%v the index key of (%q,%x)", dn2, del2, match, dn1, del1)
+			}
+			// 3. the per-validator scan prefix is exact
+			if bytes.HasPrefix(ik2, alliancetypes.GetUndelegationsIndexOrderedByValidatorKey(val1)) != same(val1, val2) {
+				failf(rt, "unbonding index: per-validator prefix", "prefix of %x vs key of %x", val1, val2)
+			}
+			if same(ik1, ik2) != (same(val1, val2) && t1.Equal(t2) && dn1 == dn2 && same(del1, del2)) {
+				failf(rt, "unbonding index key: injective", "(%x,%s,%q,%x) vs (%x,%s,%q,%x)", val1, t1, dn1, del1, val2, t2, dn2, del2)
+			}
+			// 4. redelegation record keys: the (delegator, denom, destination) prefix used by the
+			// transitive-redelegation check is exact; completion time round trip
+			rk2 := alliancetypes.GetRedelegationKey(del2, dn2, dst2, t2)
+			p1 := alliancetypes.GetRedelegationsKey(del1, dn1, dst1)
+			if bytes.HasPrefix(rk2, p1) != (same(del1, del2) && dn1 == dn2 && same(dst1, dst2)) {
+				failf(rt, "redelegation key: (delegator, denom, destination) prefix", "prefix of (%x,%q,%x) vs key of (%x,%q,%x)", del1, dn1, dst1, del2, dn2, dst2)
+			}
+			if bytes.HasPrefix(rk2, alliancetypes.GetRedelegationsKeyByDelegatorAndDenom(del1, dn1)) != (same(del1, del2) && dn1 == dn2) {
+				failf(rt, "redelegation key: (delegator, denom) prefix", "(%x,%q) vs (%x,%q)", del1, dn1, del2, dn2)
+			}
+			if bytes.HasPrefix(rk2, alliancetypes.GetRedelegationsKeyByDelegator(del1)) != same(del1, del2) {
+				failf(rt, "redelegation key: delegator prefix", "%x vs %x", del1, del2)
+			}
+			if got := alliancetypes.ParseRedelegationKeyForCompletionTime(rk2); !got.Equal(t2) {
+				failf(rt, "redelegation key: time round trip", "%s parsed back as %s", t2, got)
+			}
+			// 5. redelegation index key -> record key, per-source prefix exact
+			rik := alliancetypes.GetRedelegationIndexKey(val1, t1, dn1, dst1, del1)
+			rk, rct, err := alliancetypes.ParseRedelegationIndexForRedelegationKey(rik)
+			if err != nil || !rct.Equal(t1) || !same(rk, alliancetypes.GetRedelegationKey(del1, dn1, dst1, t1)) {
+				failf(rt, "redelegation index key -> record key", "index key of (%x,%q,%x,%s) maps to %x", del1, dn1, dst1, t1, rk)
+			}
+			if bytes.HasPrefix(alliancetypes.GetRedelegationIndexKey(val2, t2, dn2, dst2, del2), alliancetypes.GetRedelegationsIndexOrderedByValidatorKey(val1)) != same(val1, val2) {
+				failf(rt, "redelegation index: per-source prefix", "prefix of %x vs key of %x", val1, val2)
+			}
+			// 6. delegation keys: prefixes by delegator and by (delegator, validator) are exact
+			dk2 := alliancetypes.GetDelegationKey(del2, val2, dn2)
+			if bytes.HasPrefix(dk2, alliancetypes.GetDelegationsKey(del1)) != same(del1, del2) {
+				failf(rt, "delegation key: delegator prefix", "%x vs %x", del1, del2)
+			}
+			if bytes.HasPrefix(dk2, alliancetypes.GetDelegationsKeyForAllDenoms(del1, val1)) != (same(del1, del2) && same(val1, val2)) {
+				failf(rt, "delegation key: (delegator, validator) prefix", "(%x,%x) vs (%x,%x)", del1, val1, del2, val2)
+			}
+			if same(alliancetypes.GetDelegationKey(del1, val1, dn1), dk2) != (same(del1, del2) && same(val1, val2) && dn1 == dn2) {
+				failf(rt, "delegation key: injective", "(%x,%x,%q) vs (%x,%x,%q)", del1, val1, dn1, del2, val2, dn2)
+			}
+			if same(alliancetypes.GetAssetKey(dn1), alliancetypes.GetAssetKey(dn2)) != (dn1 == dn2) {
+				failf(rt, "asset key: injective", "%q vs %q", dn1, dn2)
+			}
+			// 7. reward-weight-change snapshot keys: round trip; within (denom, validator) the byte
+			// order is the numeric order of the heights
+			h1 := rapid.Uint64().Draw(rt, "h1")
+			h2 := rapid.Uint64().Draw(rt, "h2")
+			sk1 := alliancetypes.GetRewardWeightChangeSnapshotKey(dn1, val1, h1)
+			pd, pv, ph := alliancetypes.ParseRewardWeightChangeSnapshotKey(sk1)
+			if pd != dn1 || !same(pv, val1) || ph != h1 {
+				failf(rt, "snapshot key: round trip", "(%q,%x,%d) parsed back as (%q,%x,%d)", dn1, val1, h1, pd, pv, ph)
+			}
+			sk2 := alliancetypes.GetRewardWeightChangeSnapshotKey(dn1, val1, h2)
+			if (bytes.Compare(sk1, sk2) < 0) != (h1 < h2) {
+				failf(rt, "snapshot key: height order", "heights %d, %d", h1, h2)
+			}
+			// 8. bucket keys: the delegator part is exact within a completion time
+			if same(alliancetypes.GetUndelegationQueueKey(t1, del1), alliancetypes.GetUndelegationQueueKey(t2, del2)) != (t1.Equal(t2) && same(del1, del2)) {
+				failf(rt, "unbonding bucket key: injective", "(%s,%x) vs (%s,%x)", t1, del1, t2, del2)
+			}
+		})
+	})
+	if out := os.Getenv("VERIF_OUT2"); out != "" {
+		b, _ := json.Marshal(map[string]interface{}{"tuples": n, "tuples_with_related_fields": related, "fail": fail})
+		_ = os.WriteFile(out, b, 0o644)
+	}
+}
